@@ -50,7 +50,33 @@ pub fn guarded<F: FnOnce() -> String + std::panic::UnwindSafe>(f: F) -> String {
     }
 }
 
+/// With ZVT_HARNESS_LOG=1 a logger that accepts EVERY level is installed and every record is formatted (into a sink): the
+/// arguments of the library's `debug!` / `trace!` lines are then evaluated and their `Debug` / `Display` impls run, as under
+/// `RUST_LOG=trace` — a panic hidden in a log line is a panic of the decoder (C02).
+struct SinkLogger;
+impl log::Log for SinkLogger {
+    fn enabled(&self, _: &log::Metadata) -> bool {
+        true
+    }
+    fn log(&self, record: &log::Record) {
+        use std::fmt::Write;
+        let mut s = String::new();
+        let _ = write!(s, "{}", record.args());
+        std::hint::black_box(s);
+    }
+    fn flush(&self) {}
+}
+static SINK_LOGGER: SinkLogger = SinkLogger;
+
+pub fn maybe_install_logger() {
+    if std::env::var("ZVT_HARNESS_LOG").map(|v| v == "1").unwrap_or(false) {
+        let _ = log::set_logger(&SINK_LOGGER);
+        log::set_max_level(log::LevelFilter::Trace);
+    }
+}
+
 pub fn silence_panics() {
+    maybe_install_logger();
     std::panic::set_hook(Box::new(|_| {}));
 }
 
